@@ -10,12 +10,13 @@ regenerates on every run (`src_arith_exact`, `src_guards_strict`): when the sour
 uint16 again, or guards with `>` again, these stop compiling and the check says so.
 -/
 import VaxisModel.Lemmas.Surface
+import VaxisModel.Lemmas.Layout
 import VaxisModel.Lemmas.SurfacePaint
 import VaxisModel.Lemmas.SurfacePaintSpec
 
 namespace VaxisModel.Props.C14
 open VaxisModel.Model.Window VaxisModel.Model.Surface VaxisModel.Model.Layout
-open VaxisModel.Lemmas.Surface VaxisModel.Lemmas.SurfacePaint VaxisModel.Spec.Window
+open VaxisModel.Lemmas.Surface VaxisModel.Lemmas.Layout VaxisModel.Lemmas.SurfacePaint VaxisModel.Spec.Window
 
 /-! ## The source computes as the theorems assume -/
 
@@ -103,105 +104,148 @@ theorem writeCell_exact_new (w h col row : UInt16) (c : Cell) :
 
 /-! ## Layout contract -/
 
-/-- Widgets that document "must have bounded constraints". -/
-def needsBounded : Widget → Bool
-  | .center _ => true
-  | .button _ _ => true
-  | _ => false
+open VaxisModel.Gen.SurfaceFacts in
+/-- **The inventory of built-in widgets is complete.** Every type in a sub-package of vxfw with a
+method `Draw(vxfw.DrawContext) (vxfw.Surface, error)` (enumerated from the source on every run) is
+one the model's `Widget` covers, and every constructor of `Widget` models one of them. -/
+theorem widget_inventory_complete :
+    drawWidgets = modelledWidgets ∧ (∀ w : Widget, w.goName ∈ drawWidgets) := by
+  refine ⟨by decide, fun w => ?_⟩
+  cases w <;> (simp only [Widget.goName]; decide)
 
-def bounded (c : Ctx) : Prop := c.maxW ≠ unbounded ∧ c.maxH ≠ unbounded
+open VaxisModel.Gen.SurfaceFacts in
+/-- Which widgets start their Draw with the bounded-constraint panic, with which condition and
+message; what every `vxfw.NewSurface` call of a widget passes as size; what Dynamic hands to its
+children; the field types the size arithmetic runs in. -/
+theorem facts_layout :
+    boundedPanicWidgets = ["button.Button", "center.Center", "list.Dynamic"] ∧
+    boundedGuards = [
+      ("button.Button", "(P0.Max.HasUnboundedHeight()||P0.Max.HasUnboundedWidth()) => Button must have bounded constraints"),
+      ("center.Center", "(P0.Max.HasUnboundedHeight()||P0.Max.HasUnboundedWidth()) => Center must have bounded constraints"),
+      ("list.Dynamic", "(P0.Max.HasUnboundedHeight()||P0.Max.HasUnboundedWidth()) => Dynamic cannot have unbounded height or width")] ∧
+    newSurfaceArgs = [
+      ("center.Center.Draw", "P0.Max.Width x P0.Max.Height"),
+      ("list.Dynamic.Draw", "P0.Max.Width x P0.Max.Height"),
+      ("list.Dynamic.Draw", "P0.Max.Width x ch.Surface.Size.Height"),
+      ("richtext.RichText.Draw", "L1.Width x L1.Height"),
+      ("richtext.RichText.drawSoftwrap", "L1.Width x L1.Height"),
+      ("text.Text.Draw", "L0.Width x L0.Height"),
+      ("text.Text.drawSoftwrap", "L0.Width x L0.Height"),
+      ("textfield.TextField.Draw", "P0.Max.Width x 1")] ∧
+    dynamicChildCtx = [
+      "Draw: if R.DrawCursor colOffset=2",
+      "Draw: child ctx Max:vxfw.Size{Width:(P0.Max.Width-uint16(colOffset)),Height:math.MaxUint16}",
+      "insertChildren: if R.DrawCursor colOffset=2",
+      "insertChildren: child ctx Max:vxfw.Size{Width:(P0.Max.Width-uint16(colOffset)),Height:math.MaxUint16}"] ∧
+    sizeFields = ["Width:uint16", "Height:uint16"] ∧
+    relativePointFields = ["Row:int", "Col:int"] ∧
+    subSurfaceFields = ["Origin:RelativePoint", "Surface:Surface", "ZIndex:int"] := by
+  decide +kernel
 
 /-- Text / RichText (either wrap mode), any scanned lines, any constraint: the surface is no
 larger than the maximum and Draw does not panic. -/
 theorem size_le_max_text (m : TextMode) (hm : m.sizeStrict = true) (c : Ctx) (lines : List (List Cell)) :
     ∃ s, drawText exact m c lines = .ok s ∧ s.w ≤ c.maxW ∧ s.h ≤ c.maxH ∧
-      s.buf.length = s.w.toNat * s.h.toNat := by
-  obtain ⟨s, h, hw, hh, _, hs⟩ := drawText_ok m c lines
-  have hle := sizeLoop_le c.maxW c.maxH lines 0 0 (UInt16.le_iff_toNat_le.2 (Nat.zero_le _))
-    (UInt16.le_iff_toNat_le.2 (Nat.zero_le _))
-  refine ⟨s, h, ?_, ?_, by rw [hs, Nat.mul_comm]⟩
-  · rw [hw, findContainerSize, hm]; exact hle.1
-  · rw [hh, findContainerSize, hm]; exact hle.2
+      s.buf.length = s.w.toNat * s.h.toNat :=
+  text_size_le m hm c lines
 
 /-- TextField: `Max.Width × 1`, or the zero surface for a zero constraint; never a panic. -/
 theorem size_le_max_field (c : Ctx) (chars : List Cell) :
-    ∃ s, drawField exact c chars = .ok s ∧ s.w ≤ c.maxW ∧ s.h ≤ c.maxH := by
-  unfold drawField
-  split
-  · refine ⟨emptySurface, rfl, ?_, ?_⟩ <;> exact UInt16.le_iff_toNat_le.2 (Nat.zero_le _)
-  · rename_i hz
-    have d := newSurface_dims exact c.maxW 1
-    obtain ⟨s', h, hw, hh, _, _⟩ := fieldLoop_ok chars 0 (newSurface exact c.maxW 1) (newSurface_sized c.maxW 1)
-    refine ⟨s', h, ?_, ?_⟩
-    · rw [hw, d.1]; exact UInt16.le_refl _
-    · rw [hh, d.2.1]
-      have : c.maxH ≠ 0 := by
-        intro e; apply hz; simp [e]
-      rw [UInt16.le_iff_toNat_le]
-      have h0 : c.maxH.toNat ≠ 0 := fun e => this (UInt16.toNat_inj.1 (by simpa using e))
-      have : (1 : UInt16).toNat = 1 := rfl
-      omega
+    ∃ s, drawField exact c chars = .ok s ∧ s.w ≤ c.maxW ∧ s.h ≤ c.maxH :=
+  field_size_le c chars
 
-/-- **size_le_max.** Every built-in widget and nesting, every constraint (0 … 65535), every content:
-Draw returns a surface no larger than the maximum and does not panic — except the documented
-`panic("… must have bounded constraints")` of Center/Button, and that only for an unbounded
-constraint. -/
+/-- **size_le_max.** Every built-in widget (Text, RichText, TextField, Center, Button, list.Dynamic)
+and every nesting of them, every constraint (0 … 65535), every content, every choice of children a
+Dynamic draws: Draw returns a surface no larger than the maximum — or stops with the documented
+`panic("… bounded constraints")`, and that exactly when some Center / Button / Dynamic of the tree
+receives an unbounded constraint (`accepts w c = false`, characterised below).  No other panic. -/
 theorem size_le_max (tm : Bool → Nat → TextMode) (rm : Bool → TextMode)
     (htm : ∀ hard st, (tm hard st).sizeStrict = true) (hrm : ∀ hard, (rm hard).sizeStrict = true)
     (w : Widget) (c : Ctx) :
-    (∃ s, drawWith exact tm rm w c = .ok s ∧ s.w ≤ c.maxW ∧ s.h ≤ c.maxH) ∨
-    (drawWith exact tm rm w c = .error .explicit ∧ ¬ bounded c ∧ needsBounded w = true) := by
-  induction w generalizing c with
-  | text hard st lines =>
-    obtain ⟨s, h, hw, hh, _⟩ := size_le_max_text (tm hard st) (htm hard st) c lines
-    exact Or.inl ⟨s, h, hw, hh⟩
-  | rich hard lines =>
-    obtain ⟨s, h, hw, hh, _⟩ := size_le_max_text (rm hard) (hrm hard) c lines
-    exact Or.inl ⟨s, h, hw, hh⟩
-  | field chars => exact Or.inl (size_le_max_field c chars)
-  | center child ih =>
-    simp only [drawWith]
-    split
-    · rename_i hu
-      refine Or.inr ⟨rfl, ?_, rfl⟩
-      intro hb; simp only [Bool.or_eq_true, beq_iff_eq] at hu
-      rcases hu with hu | hu
-      · exact hb.2 hu
-      · exact hb.1 hu
-    · rename_i hu
-      have hb : bounded { minW := 0, minH := 0, maxW := c.maxW, maxH := c.maxH } := by
-        simp only [Bool.or_eq_true, beq_iff_eq, not_or] at hu
-        exact ⟨hu.2, hu.1⟩
-      rcases ih { minW := 0, minH := 0, maxW := c.maxW, maxH := c.maxH } with ⟨ch, hch, _, _⟩ | ⟨_, hnb, _⟩
-      · simp only [hch]
-        have p := centerAround_props exact c ch
-        exact Or.inl ⟨_, rfl, by rw [p.1]; exact UInt16.le_refl _, by rw [p.2.1]; exact UInt16.le_refl _⟩
-      · exact absurd hb hnb
-  | button st lines =>
-    simp only [drawWith]
-    split
-    · rename_i hu
-      refine Or.inr ⟨rfl, ?_, rfl⟩
-      intro hb; simp only [Bool.or_eq_true, beq_iff_eq] at hu
-      rcases hu with hu | hu
-      · exact hb.2 hu
-      · exact hb.1 hu
-    · obtain ⟨ch, hch, _, _, _⟩ := size_le_max_text (tm false st) (htm false st)
-        { minW := 0, minH := 0, maxW := c.maxW, maxH := c.maxH } lines
-      simp only [hch]
-      have p := centerAround_props exact c ch
-      have q := setBuf_dims (centerAround exact c ch) ((centerAround exact c ch).buf.map fun x => { x with st := st })
-      refine Or.inl ⟨_, rfl, ?_, ?_⟩
-      · simp only [fillStyle, q.1, p.1]; exact UInt16.le_refl _
-      · simp only [fillStyle, q.2.1, p.2.1]; exact UInt16.le_refl _
+    (accepts w c = true ∧ ∃ s, drawWith exact tm rm w c = .ok s ∧ s.w ≤ c.maxW ∧ s.h ≤ c.maxH) ∨
+    (accepts w c = false ∧ drawWith exact tm rm w c = .error .explicit) :=
+  draw_spec tm rm htm hrm w c
 
 /-- The same for the model of the current source. -/
 theorem size_le_max_src (w : Widget) (c : Ctx) :
-    (∃ s, draw w c = .ok s ∧ s.w ≤ c.maxW ∧ s.h ≤ c.maxH) ∨
-    (draw w c = .error .explicit ∧ ¬ bounded c ∧ needsBounded w = true) := by
+    (accepts w c = true ∧ ∃ s, draw w c = .ok s ∧ s.w ≤ c.maxW ∧ s.h ≤ c.maxH) ∨
+    (accepts w c = false ∧ draw w c = .error .explicit) := by
   unfold draw
   rw [src_arith_exact]
   exact size_le_max textMode richMode src_guards_strict.1 src_guards_strict.2 w c
+
+/-- The children a Dynamic draws (any sub-list of what its Builder offers), all with the constraint
+`Max.Width − colOffset` × unbounded: each is no larger than that constraint. -/
+theorem size_le_max_dynamic_children (cursor : Bool) (gap : Int) (kids : Widgets) (c : Ctx)
+    (ha : accepts (.dynamic cursor gap kids) c = true) :
+    ∃ l, drawKids srcArith textMode richMode kids (dynChildCtx cursor c) = .ok l ∧
+      l.length = kids.toList.length ∧ ∀ s ∈ l, s.w ≤ c.maxW - dynOff cursor := by
+  rw [src_arith_exact]
+  have ha' : acceptsAll kids (dynChildCtx cursor c) = true := by
+    simp only [accepts, Bool.and_eq_true] at ha; exact ha.2
+  rcases drawKids_spec textMode richMode src_guards_strict.1 src_guards_strict.2 kids (dynChildCtx cursor c) with
+    ⟨_, l, hl, hlen, hall⟩ | ⟨hf, _⟩
+  · exact ⟨l, hl, hlen, fun s hs => (hall s hs).1⟩
+  · rw [ha'] at hf; cases hf
+
+/-! ### Which constraints and nestings are accepted -/
+
+/-- Text, RichText and TextField accept every constraint, the unbounded ones included. -/
+theorem accepts_plain (w : Widget) (c : Ctx) (hn : needsBounded w = false) : accepts w c = true :=
+  accepts_of_not_needsBounded w c hn
+
+/-- Center, Button and Dynamic do not accept an unbounded constraint. -/
+theorem rejects_unbounded (w : Widget) (c : Ctx) (hn : needsBounded w = true) (hb : ¬ bounded c) :
+    draw w c = .error .explicit := by
+  have hb' : boundedB c = false := by
+    cases h : boundedB c with
+    | false => rfl
+    | true => exact absurd ((boundedB_iff c).1 h) hb
+  rcases size_le_max_src w c with ⟨ha, _⟩ | ⟨_, he⟩
+  · rw [not_accepts_of_needsBounded w c hn hb'] at ha; cases ha
+  · exact he
+
+/-- A tree without a Dynamic (Text, RichText, TextField, Button and Centers around them) is accepted
+iff its root needs no bounded constraint or gets one: Center hands its own Max on. -/
+def noDynamic : Widget → Bool
+  | .center child => noDynamic child
+  | .dynamic .. => false
+  | _ => true
+
+theorem accepts_noDynamic : ∀ (w : Widget) (c : Ctx), noDynamic w = true →
+    accepts w c = (!needsBounded w || boundedB c)
+  | .text .., _, _ => rfl
+  | .rich .., _, _ => rfl
+  | .field .., _, _ => rfl
+  | .button .., c, _ => by
+    have : needsBounded (.button ‹_› ‹_›) = true := by simp only [needsBounded, Widget.goName]; decide
+    simp [accepts, this]
+  | .center child, c, h => by
+    have hn : needsBounded (.center child) = true := by simp only [needsBounded, Widget.goName]; decide
+    have ih := accepts_noDynamic child { minW := 0, minH := 0, maxW := c.maxW, maxH := c.maxH } h
+    have hb : boundedB { minW := 0, minH := 0, maxW := c.maxW, maxH := c.maxH } = boundedB c := rfl
+    simp only [accepts, ih, hb, hn]
+    cases boundedB c <;> cases needsBounded child <;> rfl
+  | .dynamic .., _, h => by simp [noDynamic] at h
+
+/-- **dynamic_child_needs_unbounded_ok.** Dynamic hands every child an unbounded height, so a Dynamic
+is accepted iff its own constraint is bounded and no child it draws is a Center, a Button or another
+Dynamic: those always stop with their bounded-constraint panic inside a list. -/
+theorem dynamic_child_needs_unbounded_ok (cursor : Bool) (gap : Int) (kids : Widgets) (c : Ctx) :
+    accepts (.dynamic cursor gap kids) c = (boundedB c && kids.toList.all (fun w => !needsBounded w)) := by
+  simp only [accepts, acceptsAll_dyn]
+
+/-- In particular a Center / Button / Dynamic drawn as an item of a Dynamic panics for *every*
+constraint of the list. -/
+theorem dynamic_with_bounded_only_child_panics (cursor : Bool) (gap : Int) (kids : Widgets) (c : Ctx)
+    (k : Widget) (hk : k ∈ kids.toList) (hn : needsBounded k = true) :
+    draw (.dynamic cursor gap kids) c = .error .explicit := by
+  rcases size_le_max_src (.dynamic cursor gap kids) c with ⟨ha, _⟩ | ⟨_, he⟩
+  · rw [dynamic_child_needs_unbounded_ok] at ha
+    simp only [Bool.and_eq_true, List.all_eq_true] at ha
+    have := ha.2 k hk
+    rw [hn] at this; cases this
+  · exact he
 
 /-- **center_fits.** Center places a child that fits (`child ≤ Max` in both dimensions) fully
 inside its own `Max.Width × Max.Height` surface with left/right and top/bottom margins that differ
@@ -219,21 +263,21 @@ theorem center_fits (a : Arith) (c : Ctx) (ch : Surface) (hw : ch.w ≤ c.maxW) 
   simp only [Spec.Surface.centred, hx, hy, Int.ofNat_eq_natCast]
   refine ⟨by omega, by omega, by omega, by omega, by omega, by omega⟩
 
-/-- Every built-in child fits, so Center always centres it (current source). -/
-theorem center_fits_src (child : Widget) (c : Ctx) (hb : bounded c) :
+/-- Every built-in child that draws at all (no Dynamic in it that draws a Center / Button / Dynamic
+item) fits, so Center always centres it (current source). -/
+theorem center_fits_src (child : Widget) (c : Ctx) (hb : bounded c)
+    (ha : accepts child { minW := 0, minH := 0, maxW := c.maxW, maxH := c.maxH } = true) :
     ∃ ch s col row, draw child { minW := 0, minH := 0, maxW := c.maxW, maxH := c.maxH } = .ok ch ∧
       draw (.center child) c = .ok s ∧ s.kids = .cons col row 0 ch .nil ∧
       Spec.Surface.centred s.w.toNat s.h.toNat ch.w.toNat ch.h.toNat col row := by
-  have hb' : bounded { minW := 0, minH := 0, maxW := c.maxW, maxH := c.maxH } := hb
-  rcases size_le_max_src child { minW := 0, minH := 0, maxW := c.maxW, maxH := c.maxH } with ⟨ch, hch, hw, hh⟩ | ⟨_, hnb, _⟩
+  have hbB : boundedB c = true := (boundedB_iff c).2 hb
+  rcases size_le_max_src child { minW := 0, minH := 0, maxW := c.maxW, maxH := c.maxH } with ⟨_, ch, hch, hw, hh⟩ | ⟨hna, _⟩
   · obtain ⟨col, row, hk, hsw, hsh, hcen⟩ := center_fits srcArith c ch hw hh
     refine ⟨ch, centerAround srcArith c ch, col, row, hch, ?_, hk, by rw [hsw, hsh]; exact hcen⟩
-    have hu : (c.maxH == unbounded || c.maxW == unbounded) = false := by
-      simp only [Bool.or_eq_false_iff, beq_eq_false_iff_ne]; exact ⟨hb.2, hb.1⟩
     simp only [draw] at hch ⊢
-    simp only [drawWith, hu, hch]
+    simp only [drawWith, guard_center, hbB, hch]
     rfl
-  · exact absurd hb' hnb
+  · exact absurd hna (by rw [ha]; simp)
 
 /-! ## Painting -/
 
@@ -408,9 +452,14 @@ example : (newSurface exact 300 300).buf.length = 90000 := by decide +kernel
 
 example : ∃ s, draw (.center (.text false 5 [[⟨104, 1, 5⟩, ⟨105, 1, 5⟩]])) ⟨0, 0, 80, 24⟩ = .ok s ∧
     s.kids.length = 1 := by
-  rcases size_le_max_src (.center (.text false 5 [[⟨104, 1, 5⟩, ⟨105, 1, 5⟩]])) ⟨0, 0, 80, 24⟩ with ⟨s, h, _, _⟩ | ⟨_, hnb, _⟩
-  · obtain ⟨ch, s', col, row, _, h2, hk, _⟩ := center_fits_src (.text false 5 [[⟨104, 1, 5⟩, ⟨105, 1, 5⟩]]) ⟨0, 0, 80, 24⟩ ⟨by decide, by decide⟩
-    exact ⟨s', h2, by rw [hk]; rfl⟩
-  · exact absurd ⟨by decide, by decide⟩ hnb
+  obtain ⟨ch, s', col, row, _, h2, hk, _⟩ :=
+    center_fits_src (.text false 5 [[⟨104, 1, 5⟩, ⟨105, 1, 5⟩]]) ⟨0, 0, 80, 24⟩ ⟨by decide, by decide⟩ rfl
+  exact ⟨s', h2, by rw [hk]; rfl⟩
+
+/-- A Dynamic with two text items and its cursor gutter on a 10×4 constraint is accepted and draws;
+with a Button item it is not. -/
+example : accepts (.dynamic true 0 (.cons (.text false 0 [[⟨104, 1, 0⟩]]) (.cons (.field []) .nil))) ⟨0, 0, 10, 4⟩ = true := by
+  decide
+example : accepts (.dynamic false 0 (.cons (.button 0 []) .nil)) ⟨0, 0, 10, 4⟩ = false := by decide
 
 end VaxisModel.Props.C14
